@@ -589,7 +589,7 @@ pub fn execute(s: &Scenario) -> Result<CaseReport, Failure> {
     Ok(Err(f)) => return Err(f),
     Err(p) => {
       let msg = crate::panic_msg(&p);
-      return Err(Failure::new("C08", format!("E1/topic/panic_op/{}", crate::panic_site(&msg)), format!("panic inside the topic channel: {msg}")));
+      return Err(Failure::new(crate::panic_prop("C08", &["C04", "C06", "C08", "C09"]), format!("E1/topic/panic_op/{}", crate::panic_site(&msg)), format!("panic inside the topic channel: {msg}")));
     }
   };
   drop(ManuallyDrop::into_inner(tasks));
@@ -607,7 +607,7 @@ pub fn execute(s: &Scenario) -> Result<CaseReport, Failure> {
   }));
   if let Err(p) = td {
     let msg = crate::panic_msg(&p);
-    return Err(Failure::new("C09", format!("E1/topic/panic_teardown/{}", crate::panic_site(&msg)), format!("panic while dropping the handles: {msg}")));
+    return Err(Failure::new(crate::panic_prop("C09", &["C04", "C08", "C09"]), format!("E1/topic/panic_teardown/{}", crate::panic_site(&msg)), format!("panic while dropping the handles: {msg}")));
   }
   if !reg.double_drops().is_empty() {
     return Err(Failure::new("C09", "E1/topic/double_drop", format!("teardown: {:?} dropped more often than created/cloned", reg.double_drops())));
@@ -616,5 +616,96 @@ pub fn execute(s: &Scenario) -> Result<CaseReport, Failure> {
   if !live.is_empty() {
     return Err(Failure::new("C09", "E1/topic/leak", format!("{} value instance(s) never dropped after every handle is gone, e.g. {:?}", live.len(), &live[..live.len().min(5)])));
   }
+  Ok(rep)
+}
+
+// ---------------------------------------------------------------------------------------------
+// E4 for the topic channel: publishing and one receiver's subscribe/unsubscribe in program
+// order on one thread, racing *other* receivers' subscription churn on real threads.
+//
+// C08: "A topic receiver obtains exactly the messages published to topics it is subscribed to
+// at publish time".  Receiver R subscribes, the same thread then publishes, so R is certainly
+// subscribed at publish time whatever the other threads do: with room in its mailbox the
+// message must be there.  (Real scheduler: the interleaving is sampled, the verdict is sound.)
+// ---------------------------------------------------------------------------------------------
+
+#[derive(Clone, Debug, Serialize, Deserialize)]
+pub struct StressScenario {
+  pub churners: u8,
+  pub rounds: u32,
+  pub topic: u8,
+  /// churners also clone/drop receivers instead of only (un)subscribing
+  pub churn_by_drop: bool,
+}
+
+pub fn stress_strategy() -> BoxedStrategy<StressScenario> {
+  (1u8..=3, 2_000u32..12_000, 0u8..3, any::<bool>()).prop_map(|(churners, rounds, topic, churn_by_drop)| StressScenario { churners, rounds, topic, churn_by_drop }).boxed()
+}
+
+pub fn execute_stress(s: &StressScenario) -> Result<CaseReport, Failure> {
+  use std::sync::atomic::{AtomicBool, Ordering};
+  let reg = Registry::new();
+  let (tx, rx) = topic::channel::<u8, Pay>(4);
+  let stop = Arc::new(AtomicBool::new(false));
+  let mut churn = Vec::new();
+  for _ in 0..s.churners {
+    let r2 = rx.clone();
+    let stop = stop.clone();
+    let t = s.topic;
+    let by_drop = s.churn_by_drop;
+    churn.push(std::thread::spawn(move || {
+      let mut n = 0u64;
+      while !stop.load(Ordering::Relaxed) {
+        if by_drop {
+          let r3 = r2.clone();
+          r3.subscribe(t);
+          drop(r3);
+        } else {
+          r2.subscribe(t);
+          r2.unsubscribe(&t);
+        }
+        n += 1;
+        if n % 64 == 0 {
+          std::thread::yield_now();
+        }
+      }
+      while r2.try_recv().is_ok() {}
+    }));
+  }
+  let mut failure = None;
+  for i in 0..s.rounds {
+    rx.subscribe(s.topic);
+    let v = Tracked::new(i, &reg);
+    if tx.send(s.topic, v).is_err() {
+      failure = Some(Failure::new("C08", "E4/topic/send/closed_but_open", format!("round {i}: send failed although receivers are alive")));
+      break;
+    }
+    match rx.try_recv() {
+      Ok((t, v)) if t == s.topic && v.id == i => {}
+      other => {
+        failure = Some(Failure::new(
+          "C08",
+          "E4/topic/try_recv/missing_message_under_subscription_churn",
+          format!("round {i}: receiver subscribed to topic {} before the publish on the same thread, mailbox had room, but try_recv returned {:?} (other receivers were (un)subscribing concurrently)", s.topic, other.map(|(t, v)| (t, v.id))),
+        ));
+        break;
+      }
+    }
+    rx.unsubscribe(&s.topic);
+  }
+  stop.store(true, Ordering::Relaxed);
+  for c in churn {
+    let _ = c.join();
+  }
+  if let Some(f) = failure {
+    std::mem::forget(tx);
+    std::mem::forget(rx);
+    return Err(f);
+  }
+  drop(tx);
+  drop(rx);
+  let mut rep = CaseReport::new();
+  rep.nontrivial = true;
+  rep.class("topic_subscription_churn_threads");
   Ok(rep)
 }
